@@ -4,6 +4,7 @@ CONSTANTS
   InsertSeeds <- InsertSeedTexts
   Tokens <- Alphabet
   NestDepths <- MCNestDepths
+  Kind = "ledger"
   MaxSteps = 12
 INVARIANT EmitSeeds
 CHECK_DEADLOCK FALSE
